@@ -23,6 +23,8 @@ import (
 	bettypes "github.com/sge-network/sge/x/bet/types"
 	housetypes "github.com/sge-network/sge/x/house/types"
 	markettypes "github.com/sge-network/sge/x/market/types"
+	ovmtypes "github.com/sge-network/sge/x/ovm/types"
+	subtypes "github.com/sge-network/sge/x/subaccount/types"
 )
 
 // ---- identifiers ---------------------------------------------------------------------------
@@ -55,12 +57,20 @@ func (c *Chain) AccID(addr string) int64 {
 			return int64(i)
 		}
 	}
+	for id := uint64(1); id < 64; id++ {
+		if subtypes.NewAddressFromSubaccount(id).String() == addr {
+			return 1000 + int64(id)
+		}
+	}
 	return -999
 }
 
 func (c *Chain) AddrOf(id int64) string {
 	if id >= 0 && int(id) < len(c.Acc) {
 		return c.Acc[id].Addr.String()
+	}
+	if id > 1000 && id < 1064 {
+		return subtypes.NewAddressFromSubaccount(uint64(id - 1000)).String()
 	}
 	// an address that is valid bech32 but belongs to nobody in the genesis
 	return mkAccount(int(500000 + id)).Addr.String()
@@ -163,7 +173,7 @@ func (c *Chain) LeaderKey() int {
 	kv, found := c.App.OVMKeeper.GetKeyVault(c.Ctx())
 	if found && len(kv.PublicKeys) > 0 {
 		for i, k := range c.Keys {
-			if k.PEM == kv.PublicKeys[0] {
+			if strings.TrimSpace(k.PEM) == strings.TrimSpace(kv.PublicKeys[0]) {
 				return i
 			}
 		}
@@ -213,22 +223,30 @@ func (c *Chain) Exec(o Op) (string, string) {
 		p := markettypes.MarketResolutionTicketPayload{UID: marketUID(o.UID), ResolutionTS: uint64(o.Rts),
 			WinnerOddsUIDs: ws, Status: markettypes.MarketStatus(o.Status)}
 		msg = &markettypes.MsgResolve{Creator: c.AddrOf(o.Signer), Ticket: c.MakeTicket(o.Tk, p)}
-	case "DEP":
+	case "DEP", "SDEP":
 		p := housetypes.DepositTicketPayload{KycData: c.kyc(o.Ky)}
 		if o.Depositor >= 0 {
 			p.DepositorAddress = c.AddrOf(o.Depositor)
 		}
-		msg = &housetypes.MsgDeposit{Creator: c.AddrOf(o.Signer), MarketUID: marketUID(o.Mkt),
+		dm := &housetypes.MsgDeposit{Creator: c.AddrOf(o.Signer), MarketUID: marketUID(o.Mkt),
 			Amount: sdkmath.NewIntFromBigInt(o.Amount), Ticket: c.MakeTicket(o.Tk, p)}
-	case "WDR":
+		msg = dm
+		if o.Kind == "SDEP" {
+			msg = &subtypes.MsgHouseDeposit{Msg: dm}
+		}
+	case "WDR", "SWDR":
 		p := housetypes.WithdrawTicketPayload{KycData: c.kyc(o.Ky)}
 		if o.Depositor >= 0 {
 			p.DepositorAddress = c.AddrOf(o.Depositor)
 		}
-		msg = &housetypes.MsgWithdraw{Creator: c.AddrOf(o.Signer), MarketUID: marketUID(o.Mkt),
+		wm := &housetypes.MsgWithdraw{Creator: c.AddrOf(o.Signer), MarketUID: marketUID(o.Mkt),
 			ParticipationIndex: uint64(o.Pidx), Mode: housetypes.WithdrawalMode(o.Mode),
 			Amount: sdkmath.NewIntFromBigInt(o.Amount), Ticket: c.MakeTicket(o.Tk, p)}
-	case "WAG":
+		msg = wm
+		if o.Kind == "SWDR" {
+			msg = &subtypes.MsgHouseWithdraw{Msg: wm}
+		}
+	case "WAG", "SWAG":
 		var all []*bettypes.BetOddsCompact
 		for _, a := range o.AllOdds {
 			all = append(all, &bettypes.BetOddsCompact{UID: oddsUID(a.Odds), MaxLossMultiplier: decOf(a.Mult)})
@@ -243,8 +261,32 @@ func (c *Chain) Exec(o Op) (string, string) {
 			KycData: c.kyc(o.Ky), AllOdds: all,
 			Meta: bettypes.MetaData{SelectedOddsType: bettypes.OddsType(o.OddsType), SelectedOddsValue: val},
 		}
-		msg = &bettypes.MsgWager{Creator: c.AddrOf(o.Signer), Props: &bettypes.WagerProps{UID: betUID(o.BetUID),
-			Amount: sdkmath.NewIntFromBigInt(o.Amount), Ticket: c.MakeTicket(o.Tk, p)}}
+		if o.Kind == "WAG" {
+			msg = &bettypes.MsgWager{Creator: c.AddrOf(o.Signer), Props: &bettypes.WagerProps{UID: betUID(o.BetUID),
+				Amount: sdkmath.NewIntFromBigInt(o.Amount), Ticket: c.MakeTicket(o.Tk, p)}}
+		} else {
+			inner := &bettypes.MsgWager{Creator: c.AddrOf(o.Inner), Props: &bettypes.WagerProps{UID: betUID(o.BetUID),
+				Amount: sdkmath.NewIntFromBigInt(o.Amount), Ticket: c.MakeTicket(o.Tk2, p)}}
+			sp := subtypes.SubAccWagerTicketPayload{Msg: inner, MainaccDeductAmount: sdkmath.NewIntFromBigInt(o.MainDed),
+				SubaccDeductAmount: sdkmath.NewIntFromBigInt(o.SubDed)}
+			msg = &subtypes.MsgWager{Creator: c.AddrOf(o.Signer), Ticket: c.MakeTicket(o.Tk, sp)}
+		}
+	case "PROP":
+		var pems []string
+		for _, k := range o.Keys {
+			pems = append(pems, c.keyPEM(k))
+		}
+		p := ovmtypes.PubkeysChangeProposalPayload{PublicKeys: pems, LeaderIndex: uint32(o.LeaderIdx)}
+		msg = &ovmtypes.MsgSubmitPubkeysChangeProposalRequest{Creator: c.AddrOf(o.Signer), Ticket: c.MakeTicket(o.Tk, p)}
+	case "VOTE":
+		p := ovmtypes.ProposalVotePayload{ProposalId: uint64(o.PropID), Vote: ovmtypes.ProposalVote(o.Vote)}
+		msg = &ovmtypes.MsgVotePubkeysChangeRequest{Creator: c.AddrOf(o.Signer), Ticket: c.MakeTicket(o.Tk, p), VoterKeyIndex: uint32(o.VoterIdx)}
+	case "SCRE":
+		msg = &subtypes.MsgCreate{Creator: c.AddrOf(o.Signer), Owner: c.AddrOf(o.Owner), LockedBalances: locksOf(o.Locks)}
+	case "STOP":
+		msg = &subtypes.MsgTopUp{Creator: c.AddrOf(o.Signer), Address: c.AddrOf(o.Owner), LockedBalances: locksOf(o.Locks)}
+	case "SWDU":
+		msg = &subtypes.MsgWithdrawUnlockedBalances{Creator: c.AddrOf(o.Signer)}
 	case "GRANT":
 		var a authz.Authorization
 		if o.GKind == 1 {
@@ -286,6 +328,30 @@ func (c *Chain) Exec(o Op) (string, string) {
 		return "ok", ""
 	}
 	return "err", resp.Log
+}
+
+func locksOf(l [][2]*big.Int) []subtypes.LockedBalance {
+	var r []subtypes.LockedBalance
+	for _, x := range l {
+		r = append(r, subtypes.LockedBalance{UnlockTS: x[0].Uint64(), Amount: sdkmath.NewIntFromBigInt(x[1])})
+	}
+	return r
+}
+
+func (c *Chain) keyPEM(k int64) string {
+	if k >= 0 && int(k) < len(c.Keys) {
+		return c.Keys[k].PEM
+	}
+	return "-----BEGIN PUBLIC KEY-----\nnot a key\n-----END PUBLIC KEY-----\n"
+}
+
+func (c *Chain) keyID(pem string) int64 {
+	for i, k := range c.Keys {
+		if strings.TrimSpace(k.PEM) == strings.TrimSpace(pem) {
+			return int64(i)
+		}
+	}
+	return -1
 }
 
 var _ = big.NewInt
